@@ -69,6 +69,33 @@ def nested_loops(ba, bb, bc, bd, maxit, until=2):
             "until": until, "world": {"cache": True, "max_loop_iterations": maxit}, "run": {"lazy_stepping": True}}
 
 
+def shifted_weak_pair(maxit, until, n=2):
+    """one weak hop per time step: A -weak-> B (-> C) in one group, the last one feeds A over a *time-shifted*
+    connection, so every simulator performs exactly one (sub-)step per time step and nothing ever loops"""
+    names = ["A", "B", "C"][:n]
+    sims = [_sim(x, "event-based", steps=[0], emit=[1], budget=5) for x in names]
+    conns = [_c(names[0], "eo", names[1], "ti", weak=True)]
+    for i in range(1, n - 1):
+        conns.append(_c(names[i], "eo", names[i + 1], "ti"))
+    conns.append(_c(names[-1], "eo", names[0], "ti", shift=1))
+    return {"tree": [list(names)], "sims": sims, "conns": conns, "initial_events": {names[0]: 0}, "until": until,
+            "world": {"cache": True, "max_loop_iterations": maxit}, "run": {"lazy_stepping": True}}
+
+
+def carried_subtier(case, res, maxit):
+    """F26's shape: a time-shifted connection between two simulators of one (non-root) group is on a cycle with a weak
+    connection, and in the run no simulator began more than `maxit` steps at any one time (the tier value named in
+    the error was carried over from earlier time steps by the time-shifted connection, it does not count sub-steps
+    of this time step)"""
+    scn = case["scenario"]
+    groups = harness.sim_groups(scn)
+    inside = [c for c in scn["conns"] if c.get("shift") and not c.get("weak")
+              and len(groups[c["src"]]) >= 1 and groups[c["src"]] == groups[c["dst"]]]   # path () = not in a group
+    if not inside or not any(c.get("weak") for c in scn["conns"]):
+        return False
+    return all(v <= maxit for v in substeps(res).values())
+
+
 def substeps(res):
     cnt = {}
     for e in res.trace:
@@ -129,7 +156,11 @@ def analyse(case, res):
                                  f"{sorted(too_many.items())[:3]} executed more than {maxit} sub-steps of one time"))
     else:
         if res.outcome != "returned":
-            fails.append(Failure("C09.interrupted", "C09.interrupted",
+            sig_i = "C09.interrupted"
+            if (res.outcome == "exception" and res.is_a("SimulationError") and case.get("strict_count")
+                    and carried_subtier(case, res, maxit)):
+                sig_i = "C09.interrupted|subtier_carried_over_by_time_shifted_connection"
+            fails.append(Failure("C09.interrupted", sig_i,
                                  f"no simulator needs more than {worst} <= max_loop_iterations={maxit} sub-steps, but run() "
                                  f"ended with {res.outcome} {res.exc_type}: {res.exc_msg}"))
         elif core.jnorm(res.per_sim_sequences()) != core.jnorm(ref.per_sim_sequences()):
@@ -187,6 +218,22 @@ def shard(prop, tier, seed, shard, nshards):
             for f in check_case(case, acc):
                 if len(acc.failures) < 20:
                     acc.failures.append(f)
+
+    # no loop at all: one weak hop per time step, closed by a time-shifted connection (every simulator performs one
+    # sub-step per time step, so the guard must never fire, for any bound and any length of the run)
+    # (bound >= 2: a simulator that is only reached over a weak connection starts at sub-step index 1, which is the
+    # index-versus-count ambiguity of DESIGN 10.4/1 and not judged)
+    for maxit in (2, 3, 5):
+        for n in (2, 3):
+            for until in (maxit + 3, 3 * maxit + 4):
+                for sched in SCHEDULES[:3]:
+                    i += 1
+                    if i % nshards != shard or acc.out_of_time():
+                        continue
+                    case = {"scenario": shifted_weak_pair(maxit, until, n), "schedule": sched, "strict_count": True}
+                    for f in check_case(case, acc):
+                        if len(acc.failures) < 20:
+                            acc.failures.append(f)
 
     # loops at two tiers through the same simulators (inner loops in sub-groups, outer loop in the enclosing group)
     for maxit in (4, 5, 8):
